@@ -107,3 +107,14 @@ MANIFEST_TEXT['C18'] = dict(
     text='Coq theorems over tables regenerated from the source on every run (finite sets, enumerated completely; vm_compute of boolean checkers lifted by soundness lemmas to Prop): every feature in exactly one profile per version; request / response types report the feature name; each role sends exactly its assignment and dispatches exactly what the opposite role sends, every switch arm asserting that feature\'s request type on the handler its profile check guards; every rule used on a payload field is built in or registered, and no rule name stands for two functions on the shared validator; every exported enum value is accepted and nothing else where values are exported. The same facts are probed dynamically (55k validator probes, all role x feature sends) and compared with the tables.',
     note='Trusted: Coq kernel + vm_compute; the translator (cross-checked by the dynamic probes); the committed role assignment. The 1.6 synchronous SendRequest has no allow-list by design of the library (reported as a difference, not decided).',
     technique='translator-regenerated tables + Coq proof by reflection (checker soundness lemmas + vm_compute) + exhaustive dynamic probes')
+
+PROPS['C03'] = Prop('C03', harness='c03', entries=['c03'], props_file='theories/Props/C03.v', quick_n=1, thorough_n=1,
+                    trusted=[TRANSLATOR_TRUST, 'generated handler stubs tools/internal/stubs (one recording method per handler interface method) and the schema-driven payload generator'],
+                    assumptions=['network writes of replies succeed (in-process ws double); with a failing write the library makes one further attempt and gives up',
+                                 'the failing rule tags of an invalid response are taken from validator.v9 (third-party) and classified by the model with the tag table regenerated from errorFromValidation'],
+                    rule='enumerated, not sampled: 4 roles x every feature of the role\'s protocol version in both directions plus an unknown action x 6 handler outcomes x handler sets (all; for valid outcomes and in the thorough tier also none, random subset, one profile missing) on the real endpoints with generated stubs; counted = distinct encoded cases',
+                    design_ref='5 C03', monitor_prefixes=['C03'])
+MANIFEST_TEXT['C03'] = dict(
+    text='Coq theorems on the model of handleIncomingRequest / sendResponse / HandleFailedResponseError / errorFromValidation over the role and tag tables regenerated from the source: exactly one reply for every role table, handler subset, action and handler outcome; the arm that runs is the one of the CALL\'s action and (on the regenerated tables) asserts that feature\'s request type; reply kind / code as listed by the property; NotSupported when no handler, arm or feature. Tied to the code by the full cross product role x feature x outcome x handler set on the real endpoints (replies counted on the ws double, id and code compared, stub method and received payload compared).',
+    note='Trusted: Coq kernel + vm_compute, translator, generated stubs, payload generator, harness. Concurrent CALLs from many clients are exercised in the thorough tier of C11/C01 only.',
+    technique='translator-regenerated dispatch tables + Coq proof over a model of the reply logic + enumerated differential correspondence')
